@@ -12,7 +12,7 @@
     format produces [text] (or makes [vsnprintf] fail, in which case the text
     is "(bad format string)"). *)
 From Coq Require Import NArith ZArith List Bool.
-From KdV Require Import Err.ErrModel Err.ErrSpec Err.ErrProofs Err.StatusModel Err.StatusProofs.
+From KdV Require Import Err.ErrModel Err.ErrSpec Err.ErrProofs Err.StatusModel Err.StatusProofs Err.ApiProofs.
 Import ListNotations.
 
 Section C16.
@@ -122,6 +122,37 @@ Theorem C16_nonempty_on_failure_partial : forall s f text ok,
   exists s', err_vadd s f ok = Ok s' /\ cur s' <> [].
 Proof. exact (add_nonempty F vsnprintf failure junk lbuf_extra lbuf_has_room_for_delim failure_is_plain). Qed.
 
+(** ** The entry-point wrapper: [clear_error] first, then only [set_error] writes
+
+    [api_call s body] = what a public [kdump_*] function does to the error
+    object: clear, then the [set_error] calls of the failing path (none on
+    success). *)
+
+(** a successful call leaves no stale error behind, whatever was there before *)
+Theorem C16_success_leaves_no_error : forall s,
+  wf s -> exists s', api_call F vsnprintf failure junk lbuf_extra s [] = Ok s' /\
+                     err_str s' = None /\ msg_present s' = false.
+Proof. exact (api_success_no_error F vsnprintf failure junk lbuf_extra). Qed.
+
+(** a failing call (at least one set_error with a non-empty message) leaves a
+    non-empty string, under every allocation schedule *)
+Theorem C16_failure_leaves_message : forall s body aops,
+  wf s -> Forall2 matches body aops -> Forall is_add_nonempty aops -> body <> [] ->
+  exists s', api_call F vsnprintf failure junk lbuf_extra s body = Ok s' /\ msg_present s' = true.
+Proof. exact (api_failure_message F vsnprintf failure junk lbuf_extra lbuf_has_room_for_delim failure_is_plain). Qed.
+
+(** hence the contract that the end-to-end stage evaluates after every call of
+    the real library ([status_msg_ok]: documented status, message iff failure)
+    holds for every entry point that returns a failure status iff it called
+    set_error.  That each of the library's paths follows this discipline is
+    what the run-time oracle monitors (see C16_nonempty_on_failure_partial). *)
+Theorem C16_entry_point_contract : forall s body aops status,
+  wf s -> Forall2 matches body aops -> Forall is_add_nonempty aops ->
+  kdump_doc status = true -> (status = KDUMP_OK <-> body = []) ->
+  exists s', api_call F vsnprintf failure junk lbuf_extra s body = Ok s' /\
+             status_msg_ok (status, msg_present s') = true.
+Proof. exact (api_contract F vsnprintf failure junk lbuf_extra lbuf_has_room_for_delim failure_is_plain). Qed.
+
 End C16.
 
 Print Assumptions C16_nul_terminated_in_bounds.
@@ -135,6 +166,9 @@ Print Assumptions C16_fits_no_truncation.
 Print Assumptions C16_clear_then_empty.
 Print Assumptions C16_clear_then_add.
 Print Assumptions C16_nonempty_on_failure_partial.
+Print Assumptions C16_success_leaves_no_error.
+Print Assumptions C16_failure_leaves_message.
+Print Assumptions C16_entry_point_contract.
 
 (** defect 13 of the pinned tree (lbuf has no room for the delimiter,
     [lbuf_extra = 0]): the faithful model reads [lbuf[bufsz]] *)
